@@ -304,6 +304,40 @@ func c16child(args []string, _ int64, _ string) int {
 		}
 	}
 
+	// 1c. one shared client-assembled report whose fields hold templates that export the report again (a
+	// legitimately nested export, a dozen levels deep), exported by 48 goroutines at once: read-only use
+	{
+		rep, tmpl := lib.ChainedReport(12)
+		want, wantNil, werr, wpan := rep.ExportWithString(tmpl)
+		ref := fmt.Sprint(want, wantNil, lib.ErrClass(werr), wpan != nil)
+		const N, each = 48, 25
+		bad := make([]string, N)
+		start := make(chan struct{})
+		var wg sync.WaitGroup
+		for g := 0; g < N; g++ {
+			wg.Add(1)
+			go func(g int) {
+				defer wg.Done()
+				<-start
+				for i := 0; i < each; i++ {
+					o, isNil, err, pan := rep.ExportWithString(tmpl)
+					if got := fmt.Sprint(o, isNil, lib.ErrClass(err), pan != nil); got != ref && bad[g] == "" {
+						bad[g] = got
+					}
+				}
+			}(g)
+		}
+		close(start)
+		wg.Wait()
+		for g := 0; g < N; g++ {
+			if bad[g] != "" {
+				res.Mismatches = append(res.Mismatches, fmt.Sprintf("nested export of one shared report by %d goroutines: goroutine %d got %q, sequentially %q", N, g, clip(bad[g], 200), clip(ref, 200)))
+			}
+			res.Ops += each
+		}
+		res.KindCounts["ExportWithString (nested 12 levels, shared report, 48 goroutines)"] += N * each
+	}
+
 	// 2./3. phases: fresh (never queried) shared objects, the concurrent phase, then the sequential re-execution
 	const perPhase = 250
 	seqAll := uint64(1469598103934665603)
